@@ -79,7 +79,13 @@ def _observe(s, both=True):
     if not both:
         return a, a
     try:
-        b = _take(Substance.from_formula(s).composition)
+        sub = Substance.from_formula(s)
+        try:  # derived quantities read the composition; they must leave it as it is (the mass itself is C14's subject)
+            sub.mass
+            sub.molar_mass()
+        except Exception:
+            pass
+        b = _take(sub.composition)
     except Exception as e:
         b = "EXC %s" % type(e).__name__
     return a, b
@@ -194,7 +200,7 @@ def run_chunk(chunk, tier):
     elif kind == "G":
         for g in F.GREEK:
             for core in ("FeOOH", "Al2O3", "H2O2"):
-                for tail, q in (("", None), ("(s)", None), ("+2", 2)):
+                for tail, q in (("", None), ("(s)", None), ("+2", 2), ("-", -1), ("-3(aq)", -3)):
                     s = g + "-" + core + tail
                     ref = dict(_flat(core))
                     if q is not None:
